@@ -2,10 +2,12 @@ package mon
 
 import (
 	"fmt"
+	"runtime"
 	"sort"
 	"strconv"
 	"strings"
 	"sync"
+	"time"
 
 	"verif/harness/lib"
 	"verif/harness/spec"
@@ -229,7 +231,7 @@ func checkReportHold(w *W, st *c17stats, o lib.Obj, s string, langName string, w
 	w.DistinctS("reports", s+"|"+langName+"|"+o.Kind.String())
 }
 
-var reportLangs = []string{"en", "ja", "und", "fr", "de-CH", "zh-Hant-TW", "ko", "enm", "jam"}
+var reportLangs = []string{"en", "ja", "und", "fr", "de-CH", "zh-Hant-TW", "ko", "enm", "jam", "ko-KR", "zh-TW", "ru-RU", "ar-EG", "und-Hans-JP"}
 
 func runC17(r *Run) int {
 	r.CleanOut()
@@ -285,6 +287,61 @@ func runC17(r *Run) int {
 			}
 		}
 	})
+	// embedded lower-level reports that outlive their owner: only .TemporalReport / .BaseReport of a report are
+	// kept, the owner is dropped, garbage collections run, further reports are built, and the kept ones are re-read
+	{
+		type keptRep struct {
+			rep  lib.Report
+			snap map[string]string
+			c    Case
+		}
+		var kept []keptRep
+		rng := r.Rng(4711)
+		mk := func() {
+			v := newV3(rng.IntN(2), rng.IntN(nBase3))
+			randOptional3(&v, spec.LEnv, rng)
+			s := render3(&v, spec.LEnv, nil)
+			o, err, _ := lib.DecodeAuto(lib.K3E, s)
+			if err != nil || o.IsNil() {
+				return
+			}
+			rep, pan := lib.NewReport(o, tagOf(reportLangs[rng.IntN(3)]), true)
+			if pan != nil {
+				return
+			}
+			c := decodeCase(lib.K3E, s, false)
+			c.Type = "report"
+			c.Args = map[string]string{"kept": "only the embedded lower-level report; the owner was dropped and garbage collections ran"}
+			for _, sub := range []lib.Report{{Level: 1, T: rep.E.TemporalReport}, {Level: 0, B: rep.E.TemporalReport.BaseReport}} {
+				snap, _ := sub.Flatten()
+				kept = append(kept, keptRep{sub, snap, c})
+			}
+		}
+		for i := 0; i < r.Pick(300, 3000); i++ {
+			mk()
+		}
+		w := r.NewW()
+		for round := 0; round < 3; round++ {
+			runtime.GC()
+			time.Sleep(2 * time.Millisecond)
+			nk := len(kept)
+			for i := 0; i < 300; i++ {
+				mk() // further reports built in between (their embedded parts are kept as well)
+			}
+			for _, k := range kept[:nk] {
+				w.Eval(1)
+				now, _ := k.rep.Flatten()
+				for f, v := range k.snap {
+					if now[f] != v {
+						w.Violate(Violation{Monitor: "C17", Check: "an embedded lower-level report keeps showing its own metrics object after its owner was dropped and other reports were built (field " + f + ")", Case: k.c, Observed: now[f], Expected: v})
+						break
+					}
+				}
+			}
+		}
+		w.Merge()
+		r.Extra("embedded_reports_kept_after_their_owner_was_dropped", len(kept))
+	}
 	st.mu.Lock()
 	var unk []string
 	for p := range st.unknown {
